@@ -33,7 +33,8 @@ def act_bytes(a):
 
 def flow_mod_bytes(op, xid):
     acts = b"".join(act_bytes(a) for a in op["acts"])
-    body = pack_rec(op["m"]) + struct.pack("!QHHHHLHH", op["cookie"], op["cmd"], op["idle"], op["hard"], op["prio"], 0xffffffff,
+    buf = 0xffffffff if op.get("buf") is None else op["buf"]
+    body = pack_rec(op["m"]) + struct.pack("!QHHHHLHH", op["cookie"], op["cmd"], op["idle"], op["hard"], op["prio"], buf,
                                            op["out_port"], op["flags"]) + acts
     return struct.pack("!BBHL", 1, 14, 8 + len(body), xid) + body
 
@@ -66,7 +67,8 @@ def parse_out(buf):
             et, ec = struct.unpack("!HH", b[:4])
             outs.append({"k": "err", "t": et, "c": ec})
         elif t == 10:
-            outs.append({"k": "pin", "port": struct.unpack("!LHH", b[:8])[2]})
+            bid, _, port = struct.unpack("!LHH", b[:8])
+            outs.append({"k": "pin", "port": port, "bid": None if bid == 0xffffffff else bid})
         elif t == 17:
             st, fl = struct.unpack("!HH", b[:4])
             body = b[4:]
@@ -88,6 +90,19 @@ def parse_out(buf):
             outs.append({"k": "other", "type": t})
         off += ln
     return outs
+
+def expected_emits(acts, in_port, ln):
+    """what `_process_actions_for_packet` emits for the action lists the harness puts into buffer-carrying flow-mods (outputs to
+    physical ports 1..4 and strip_vlan on an untagged frame): one frame per output action whose port is not the ingress port"""
+    out = []
+    for a in acts:
+        if a[0] == 0 and 1 <= a[1] <= 4 and a[1] != in_port: out.append([a[1], ln])
+        elif a[0] == 1 and a[1] != 3: raise ValueError("action outside the buffer alphabet")
+    return out
+
+def rel_view(o):
+    """a `release` of the model / the specification, as the harness observes it on the real switch"""
+    return {"k": "rel", "id": o["id"], "len": o["len"], "port": o["port"], "emits": expected_emits(o["acts"], o["port"], o["len"])}
 
 # ------------------------------------------------------------------ OpenFlow 1.0 §4.6/§4.7 transcribed (the property oracle)
 def dl_is(r, t): return not wild(r, DL_TYPE) and r[DL_TYPE] == t
@@ -162,7 +177,27 @@ def removed_of(now, reason, f):
 def notifications(now, reason, fs): return [removed_of(now, reason, f) for f in fs if f["flags"] & SEND_FLOW_REM]
 
 class SpecTable:
-    def __init__(self, now, cap, variant=None): self.flows, self.now, self.cap, self.variant = [], now, cap, variant
+    def __init__(self, now, cap, variant=None, bufs=100):
+        self.flows, self.now, self.cap, self.variant = [], now, cap, variant
+        self.slots, self.bufs = [], bufs            # C18's pool: slot list, buffer id = index + 1
+    def alloc(self, fr):
+        for i, v in enumerate(self.slots):
+            if v is None: self.slots[i] = fr; return i + 1
+        if len(self.slots) >= self.bufs: return None
+        self.slots.append(fr); return len(self.slots)
+    def apply_buffer(self, bid, acts):
+        if bid != 0 and bid - 1 < len(self.slots) and self.slots[bid - 1] is not None:
+            ln, port = self.slots[bid - 1]
+            self.slots[bid - 1] = None
+            return [{"k": "rel", "id": bid, "len": ln, "port": port, "acts": acts}]
+        if bid != 0 and bid - 1 < len(self.slots): return [{"k": "err", "t": 1, "c": 7}]
+        return [{"k": "err", "t": 1, "c": 8}]
+    def command(self, op):
+        c = op["cmd"]
+        if c == ADD: return self.add(op)
+        if c in (MODIFY, MODIFY_STRICT): return self.modify(op, c == MODIFY_STRICT)
+        if c in (DELETE, DELETE_STRICT): return self.delete(op, c == DELETE_STRICT)
+        return [{"k": "err", "t": 3, "c": 4}]
     def add(self, op):
         fl = op["flags"]
         if fl & EMERG:
@@ -194,10 +229,9 @@ class SpecTable:
     def step(self, op, ph=None, ln=None):
         k = op["op"]
         if k == "fm":
-            c = op["cmd"]
-            if c == ADD: return self.add(op)
-            if c in (MODIFY, MODIFY_STRICT): return self.modify(op, c == MODIFY_STRICT)
-            return self.delete(op, c == DELETE_STRICT)
+            out = self.command(op)
+            if op["cmd"] <= DELETE_STRICT and op.get("buf") is not None: out = out + self.apply_buffer(op["buf"], op["acts"])
+            return out
         if k == "adv": self.now += op["dt"]; return []
         if k == "sweep":
             idle = [f for f in self.flows if self.idle_exp(f)]
@@ -210,7 +244,7 @@ class SpecTable:
                 if spec_match(f["m"], h):
                     self.flows = self.flows[:i] + [dict(f, pk=f["pk"] + 1, by=f["by"] + ln, tu=self.now)] + self.flows[i + 1:]
                     return []
-            return [{"k": "pin", "port": op["port"]}]
+            return [{"k": "pin", "port": op["port"], "bid": self.alloc((ln, op["port"]))}]
         sub = plain_subsumes if self.variant == "stats-request-not-unwired" else (lambda a, b: v_subsumes(a, b, self.variant))
         fs = [f for f in self.flows if sub(op["m"], f["m"]) and port_ok(f, op["out_port"])]
         if k == "fstats":
@@ -241,15 +275,18 @@ M_EXACT = rec([], 0, 0, in_port=1, dl_src=MAC1, dl_dst=MAC2, dl_vlan=0xffff, pcp
               nw_dst=0x0a020202, tp_src=1000, tp_dst=80)
 M_ARP = rec(but(DL_TYPE), dl_type=0x0806)
 M_DST2 = rec(but(DL_DST), dl_dst=MAC2)
-MATCHES = [M_ALL, M_INPORT1, M_IP, M_NET8, M_TCP80, M_NET16_P1, M_EXACT, M_ARP, M_DST2, M_IP_B]
+M_DST16 = rec(but(DL_TYPE), dc=16, dl_type=0x0800, nw_dst=0x0a020000)          # overlaps M_NET8 without containment
+M_NET8_O = rec(but(DL_TYPE), sc=24, dl_type=0x0800, nw_src=0x0b000000)         # disjoint from M_NET8
+MATCHES = [M_ALL, M_INPORT1, M_IP, M_NET8, M_TCP80, M_NET16_P1, M_EXACT, M_ARP, M_DST2, M_IP_B, M_DST16, M_NET8_O]
+BUF_ACTS = [0, 1, 2, 3, 4, 6]                     # indices of ACTS usable in a flow-mod that names a buffer (see expected_emits)
 PRIOS = [10, 100, 0xffff]
 # max_len is 0 on physical ports: ofp_action_output.pack() itself rewrites it to 0 unless the port is CONTROLLER (so a stats reply
 # would change the stored action; noted in the report, outside the property)
 ACTS = [[[0, 2, 0]], [[0, 3, 0]], [[0, 2, 0], [0, 3, 0]], [], [[1, 3, 0], [0, 2, 0]], [[1, 1, 5]], [[0, 4, 0], [0, 2, 0]]]
 
-def fm(cmd, m, prio=100, flags=0, out_port=NONE, acts=None, idle=0, hard=0, cookie=0):
+def fm(cmd, m, prio=100, flags=0, out_port=NONE, acts=None, idle=0, hard=0, cookie=0, buf=None):
     return {"op": "fm", "cmd": cmd, "m": list(m), "cookie": cookie, "idle": idle, "hard": hard, "prio": prio, "out_port": out_port, "flags": flags,
-            "acts": [list(a) for a in (ACTS[0] if acts is None else acts)]}
+            "acts": [list(a) for a in (ACTS[0] if acts is None else acts)], "buf": buf}
 
 # deviations of the unchanged code from the standard: inputs replayed from the `_defect` theorems of Properties/C04.lean
 M_NET8A = rec(but(DL_TYPE), sc=24, dl_type=0x0800, nw_src=0x0a090909)
@@ -275,43 +312,51 @@ class C04(Check):
     lean_targets = ["drv_c04"]
     driver = "drv_c04"
     theorems = []            # filled in below
-    anchors = [("pox/datapaths/switch.py", 220, 232), ("pox/datapaths/switch.py", 296, 310), ("pox/datapaths/switch.py", 515, 522),
-               ("pox/datapaths/switch.py", 751, 842), ("pox/openflow/flow_table.py", 42, 65), ("pox/openflow/flow_table.py", 83, 127),
-               ("pox/openflow/flow_table.py", 157, 186), ("pox/openflow/flow_table.py", 225, 247), ("pox/openflow/flow_table.py", 260, 311),
-               ("pox/openflow/flow_table.py", 343, 354)]
-    design_ref = "DESIGN.md §5 C04, §6 D23 (repair proposed: fixes/D23_check_overlap_true_overlap.diff)"
+    anchors = [("pox/datapaths/switch.py", 220, 232), ("pox/datapaths/switch.py", 296, 310), ("pox/datapaths/switch.py", 529, 544),
+               ("pox/datapaths/switch.py", 708, 719), ("pox/datapaths/switch.py", 729, 744), ("pox/datapaths/switch.py", 772, 863),
+               ("pox/datapaths/switch.py", 1000, 1011), ("pox/openflow/flow_table.py", 42, 65), ("pox/openflow/flow_table.py", 83, 127),
+               ("pox/openflow/flow_table.py", 157, 183), ("pox/openflow/flow_table.py", 225, 247), ("pox/openflow/flow_table.py", 256, 311),
+               ("pox/openflow/flow_table.py", 343, 374)]
+    design_ref = "DESIGN.md §5 C04, §6 D23 (fixed, c244d60); repairs proposed for C04-1/2/3: fixes/C04-*.diff"
     technique = ("Lean 4 proof (invariants over all operation histories; per-operation refinement of the hand-written switch model to a transcription of the "
-                 "OpenFlow 1.0 §4.6/§4.7 flow table, lifted to histories by induction; bit-level lemmas tying ofp_match.__eq__ / matches_with_wildcards to "
-                 "'same packet set' / subsumption) + differential correspondence of the compiled model against the real SoftwareSwitch over OpenFlow bytes "
-                 "+ independent spec oracle")
-    level_text = ("Theorems (all states / all histories, no bounds): table_sorted (descending effective priority is invariant under every operation); no_duplicates "
-                  "(never two entries with equal match and priority); removed_once + "
-                  "departures_leave (each entry leaving by idle timeout, hard timeout or DELETE[_STRICT] that carries SEND_FLOW_REM yields exactly one flow-removed with that reason, "
-                  "its age and counters; ADD incl. replacement, MODIFY incl. modify-as-add, traffic, clock and stats yield none); expiry_window (a sweep removes an entry iff a deadline "
-                  "is strictly before now; only traffic refreshes the idle clock, nothing the hard clock); clock_inv; flowmod_refines / history_refines (under MatchOk on transmitted "
-                  "matches, the model's table and messages equal the standard's after every history: ADD replace/overlap/full/emergency, MODIFY[_STRICT] "
-                  "incl. acts-as-add, DELETE[_STRICT] with out_port filter, packet accounting, sweeps, flow/aggregate stats); selection_meaning, overlap_meaning (the match relations are the "
-                  "semantic ones); overlap_check_exact (CHECK_OVERLAP = the standard's overlap, after repair D23). Three `_defect` theorems witness what the hypotheses exclude "
-                  "(C04-1, C04-2, C04-3) and partial_overlap_witness is D23's input; each is replayed on the real switch on every run.")
-    level_note = ("Trusted: Lean kernel, axioms propext/Classical.choice/Quot.sound, the hand-written Model/FlowMod.lean (+ C03's Model/Match, Model/FlowTable), the transcriptions "
-                  "Spec/OF10Table.lean and Spec/OF10Match.lean, this harness (virtual clock, byte encoders/parsers, frame header extraction). The theorems are about the model; the per-run "
-                  "correspondence (exhaustive histories to length 3 over a 14-event alphabet, random histories to length 60, through real OpenFlow bytes) ties it to the code.")
-    trusted_base = ["model Model/FlowMod.lean hand-written from switch.py (_rx_flow_mod, _flow_mod_*, _handle_FlowTableModification, rx_packet) and flow_table.py; tied by this correspondence run",
-                    "Spec/OF10Table.lean: hand transcription of OpenFlow 1.0 §4.6 (flow-mod commands), §4.7 (timeouts, flow-removed), §5.3.5 (flow/aggregate stats); its Python twin in "
-                    "harness/c04.py is cross-checked against it on every case",
-                    "harness/swnet.py + poxenv.clock (virtual time.time in multiples of 1/8 s, exact in binary64); frames' header tuples read off the real parsed packet (C03's phdr_of)"]
+                 "OpenFlow 1.0 §4.6/§4.7 flow table, lifted to histories by induction; bit-level lemmas tying ofp_match.__eq__ / matches_with_wildcards / "
+                 "_matches_overlap to 'same packet set' / subsumption / overlap, and the proposed repairs to the standard's view of a match) + differential "
+                 "correspondence of the compiled model against the real SoftwareSwitch over OpenFlow bytes + independent spec oracle")
+    level_text = ("Theorems (all states / all histories, no bounds, both code variants HEAD / repaired): table_sorted, table_sorted_prefix (descending effective priority after every "
+                  "prefix); no_duplicates; removed_once + departures_leave (each entry leaving by idle timeout, hard timeout or DELETE[_STRICT] that carries SEND_FLOW_REM yields exactly one "
+                  "flow-removed with that reason, its age and counters; ADD incl. replacement, MODIFY incl. modify-as-add, unknown commands, buffer release, traffic, clock and stats yield "
+                  "none); expiry_window (a sweep removes an entry iff a deadline is strictly before now; only traffic refreshes the idle clock, nothing the hard clock); clock_inv; "
+                  "flowmod_refines_partial / history_refines_partial (for every history of regular events the model's table, counters, stored buffers and every message incl. the "
+                  "flow-removed stream — removed_stream_refines — equal the standard's: ADD replace/overlap incl. CIDR/full/emergency, MODIFY[_STRICT] incl. acts-as-add, DELETE[_STRICT] "
+                  "with out_port filter, unknown command, buffer_id release with BUFFER_UNKNOWN/EMPTY, packet accounting and miss buffering, sweeps, flow/aggregate stats); "
+                  "history_refines_repaired (with the three proposed repairs only C03's open findings D38/D36/D26 remain as hypotheses); selection_meaning, overlap_meaning, "
+                  "overlap_check_exact. The unrestricted statement history_refines_full is kept and refuted for both variants (history_refines_full_defect_head / _repaired); "
+                  "strict_hostbits_defect, undefined_bits_defect, stats_unwired_defect witness C04-1/2/3 at HEAD and their repair; partial_overlap_witness, cidr_overlap_witness "
+                  "are D23's inputs. Every witness is replayed on the real switch on every run.")
+    level_note = ("Trusted: Lean kernel, axioms propext/Classical.choice/Quot.sound, the hand-written Model/FlowMod.lean (+ C03's Model/Match, Model/FlowTable, C18's BufPool.Pool/alloc), the "
+                  "transcriptions Spec/OF10Table.lean and Spec/OF10Match.lean, this harness (virtual clock, byte encoders/parsers, frame header extraction, the probe that tells which code "
+                  "variant is under test). The theorems are about the model; the per-run correspondence (exhaustive histories to length 3 over a 16-event alphabet, random histories to "
+                  "length 60, through real OpenFlow bytes into _rx_flow_mod / _rx_stats_request / rx_packet) ties it to the code.")
+    trusted_base = ["model Model/FlowMod.lean hand-written from switch.py (_rx_flow_mod, _flow_mod_*, _process_actions_for_packet_from_buffer, _buffer_packet, _handle_FlowTableModification, "
+                    "rx_packet, _stats_flow/_stats_aggregate) and flow_table.py; tied by this correspondence run",
+                    "Spec/OF10Table.lean: hand transcription of OpenFlow 1.0 §4.6 (flow-mod commands), §4.7 (timeouts, flow-removed), §5.3.3 (buffer_id), §5.3.5 (flow/aggregate stats); its "
+                    "Python twin in harness/c04.py is cross-checked against it on every case",
+                    "harness/swnet.py + poxenv.clock (virtual time.time in multiples of 1/8 s, exact in binary64); frames' header tuples read off the real parsed packet (C03's phdr_of)",
+                    "code-variant probe (harness/c04.py probe_variant): the model's Cfg is chosen from the real switch's behaviour on the three witness inputs; the oracle does not depend on it"]
     assumptions = ["sweeps are explicit events (`FlowTable.remove_expired_entries()` called under the virtual clock); the recoco Timer that calls it every 2 s in ExpireMixin is not started",
-                   "flow-mods carry buffer_id = NO_BUFFER (buffered-packet release is C18) and one of the five defined commands (unknown commands are C13)",
-                   "frames arrive on existing, enabled ports and are complete IPv4/ARP/other frames without ECN bits (C03's `regular` / D36); what actions do to a frame is C12",
-                   "refinement hypotheses (MatchOk): wildcarded dl_type/nw_proto fields are zero on the wire (D38), ToS without ECN bits (D36), exact matches are IPv4 TCP/UDP/ICMP (D26), "
-                   "no address bits below the prefix (C04-1), no undefined wildcard bits (C04-2), stats-request matches canonical (C04-3)",
-                   "the model mirrors the code WITH the proposed repair fixes/D23_check_overlap_true_overlap.diff (CHECK_OVERLAP tests the standard's overlap, not mutual subsumption)",
-                   "the Spec resolves two choices the standard leaves open as the code does: among matching flows of equal rank the newest is hit; an entry past both deadlines is reported IDLE_TIMEOUT; "
-                   "emergency flow-mods are refused (cache unsupported) with the code's error codes; MODIFY does not touch the cookie",
+                   "a released buffer is observed through the frames the switch emits; flow-mods that name a buffer carry only outputs to physical ports / strip_vlan (what actions do to a frame is C12, "
+                   "re-buffering through output:CONTROLLER is C18)",
+                   "frames arrive on existing, enabled ports and are complete IPv4/ARP/other frames without ECN bits (C03's `regular` / D36)",
+                   "refinement hypotheses (WireOk): wildcarded dl_type/nw_proto fields are zero on the wire (D38), ToS without ECN bits (D36), exact matches are IPv4 TCP/UDP/ICMP (D26); at HEAD also "
+                   "no address bits below the prefix (C04-1), no undefined wildcard bits (C04-2), stats-request matches canonical (C04-3) — these three fall away in the repaired variant",
+                   "the Spec resolves choices the standard leaves open as the code does: among matching flows of equal rank the newest is hit; an entry past both deadlines is reported IDLE_TIMEOUT; "
+                   "emergency flow-mods are refused (cache unsupported) with the code's error codes; MODIFY/DELETE ignore OFPFF_EMERG; MODIFY does not touch the cookie; a named buffer is released "
+                   "through the flow-mod's actions for every defined command even when the command is refused or is a DELETE, without touching any flow's counters; buffer ids are allocated by C18's pool",
                    "ofp_action_output.pack() rewrites max_len to 0 for non-controller ports, so a flow-stats reply changes that field of the stored action; the harness uses max_len 0 on physical ports"]
-    rule = ("case = (max_entries, history over flow-mods {5 commands x 10 overlapping matches (two encodings of one flow, exact, prefixes) x 3 priorities x flags SEND_FLOW_REM/CHECK_OVERLAP/EMERG x "
-            "out_port filters x 7 action lists x idle/hard timeouts}, frames on ports, clock advances in 1/8 s, sweeps, flow/aggregate stats requests); corpus = defect witnesses + all histories of "
-            "length <= 3 over a 14-event alphabet + expiry-boundary / replace / table-full / emergency seeds; non-trivial = a flow-removed is written or the table holds >= 2 entries")
+    rule = ("case = (max_entries, max_buffers, history over flow-mods {5 commands + unknown x 12 overlapping matches (two encodings of one flow, exact, nested/partially overlapping/disjoint prefixes) x "
+            "3 priorities x flags SEND_FLOW_REM/CHECK_OVERLAP/EMERG x out_port filters x 7 action lists x idle/hard timeouts x buffer ids (live, used, unknown, 0)}, frames on ports (hits and buffered "
+            "misses), clock advances in 1/8 s, sweeps, flow/aggregate stats requests); corpus = defect witnesses + all histories of length <= 3 over a 16-event alphabet + expiry-boundary / replace / "
+            "table-full / emergency / buffer / unknown-command / CIDR-overlap seeds; non-trivial = a flow-removed is written or the table holds >= 2 entries")
     coverage_cases = 400
 
     def setup(self):
@@ -322,6 +367,19 @@ class C04(Check):
         self.swnet, self.of, self.pkt, self.IPAddr, self.EthAddr = swnet, of, pkt, IPAddr, EthAddr
         self.c03 = c03.C03(); self.c03.setup()
         self._frames = None
+        self.cfg = self.probe_variant()
+
+    def probe_variant(self):
+        """which of the proposed repairs C04-1/2/3 the tree under test has: the model mirrors the code *as it stands* (Cfg in
+        Model/FlowMod.lean).  Decided by the behaviour of the real switch on the three witness inputs; the oracle never looks at it."""
+        def last(name): return self.impl({"max": 100, "ops": copy.deepcopy(WITNESSES[name])})["steps"][-1]
+        strict_mutual = len(last("strict_hostbits_defect")["table"]) == 1
+        mask_undefined = len(last("undefined_bits_defect")["table"]) == 0
+        stats_unwire = last("stats_unwired_defect")["outs"] == [{"k": "as", "pk": 0, "by": 0, "n": 1}]
+        return [strict_mutual, mask_undefined, stats_unwire]
+
+    def extra_evidence(self):
+        return {"code_variant": dict(zip(["C04-1 strictMutual", "C04-2 maskUndefined", "C04-3 statsUnwire"], self.cfg))}
 
     # ---------------------------------------------------------------- frames (real packet library)
     def frames(self):
@@ -366,11 +424,13 @@ class C04(Check):
 
     def impl(self, case):
         poxenv.clock.now = T0 / 1000.0
-        node = self.swnet.SwitchNode(ports=4, max_entries=case["max"])
+        node = self.swnet.SwitchNode(ports=4, max_entries=case["max"], max_buffers=case.get("bufs", 100))
         steps = []
         xid = 100
         for op in case["ops"]:
             node.w.send_buf = b""
+            node.emitted = []
+            before = list(node.sw._packet_buffer)
             st = "ok"
             try:
                 k = op["op"]
@@ -393,7 +453,16 @@ class C04(Check):
             if node.w.closed: st = "closed"
             try: outs = parse_out(bytes(node.w.send_buf))
             except Exception as e: outs = [{"k": "unparsable", "why": type(e).__name__}]
-            steps.append({"st": st, "outs": outs, "table": [self.entry_view(e) for e in node.sw.table.entries]})
+            # a buffer released by this step: its slot went from a stored (packet, in_port) to None; what was emitted meanwhile
+            after = node.sw._packet_buffer
+            freed = [i for i, b in enumerate(before) if b is not None and after[i] is None]
+            for i in freed:
+                pk, port = before[i]
+                outs.append({"k": "rel", "id": i + 1, "len": len(pk.pack()), "port": port, "emits": [[p, len(fr)] for p, fr in node.emitted]})
+            if not freed and node.emitted and op["op"] == "fm":
+                outs.append({"k": "emitted-without-release", "n": len(node.emitted)})
+            steps.append({"st": st, "outs": outs, "table": [self.entry_view(e) for e in node.sw.table.entries],
+                          "pool": [0 if b is None else 1 for b in after]})
         return {"steps": steps}
 
     # ---------------------------------------------------------------- model / spec through the driver
@@ -406,25 +475,27 @@ class C04(Check):
         return ops
 
     def model_request(self, case):
-        return {"now": T0, "max": case["max"], "ops": self.model_ops(case)}
+        return {"now": T0, "max": case["max"], "bufs": case.get("bufs", 100), "cfg": self.cfg, "ops": self.model_ops(case)}
 
     def spec_run(self, case, variant=None, upto=None):
-        t = SpecTable(T0, case["max"], variant)
+        t = SpecTable(T0, case["max"], variant, case.get("bufs", 100))
         out = []
         for op in case["ops"][:upto]:
             if op["op"] == "pkt": o = t.step(op, self.phdr(op["frame"]), len(op["frame"]) // 2)
             else: o = t.step(op)
-            out.append({"outs": o, "flows": t.view()})
+            out.append({"outs": o, "flows": t.view(), "pool": [0 if b is None else 1 for b in t.slots]})
         return out
 
     def model_obs(self, case, resp):
         if "error" in resp: return resp
-        return {"model": resp["model"], "spec": resp["spec"]}
+        # a release is observed on the real switch through what it emits: translate the model's (frame, actions) accordingly
+        model = [dict(st, outs=[rel_view(o) if o["k"] == "rel" else o for o in st["outs"]]) for st in resp["model"]]
+        return {"model": model, "spec": resp["spec"]}
 
     def impl_view(self, case, obs):
         # left: the real code's observables (compared with the Lean model); right: the Python transcription of the standard
         # (compared with Lean's Spec on every case, so the oracle below and the theorems speak about the same specification)
-        return {"model": [{"outs": s["outs"], "table": s["table"]} if s["st"] == "ok" else s for s in obs["steps"]],
+        return {"model": [{"outs": s["outs"], "table": s["table"], "pool": s["pool"]} if s["st"] == "ok" else s for s in obs["steps"]],
                 "spec": self.spec_run(case)}
 
     # ---------------------------------------------------------------- the property, on the real code's observables
@@ -442,6 +513,7 @@ class C04(Check):
                     return n, "%s: entry %d differs from the specification's (prio/fields/actions/cookie/flags/timeouts/clocks/counters)" % (where, i)
             eff = [g[1] for g in got]
             if any(a < b for a, b in zip(eff, eff[1:])): return n, "%s: table not sorted by effective priority" % where
+            if s["pool"] != sp["pool"]: return n, "%s: stored buffers %s, specification %s" % (where, s["pool"], sp["pool"])
             # messages: exactly the specification's, flow-removed matched on every field, its match up to encoding
             go, wo = s["outs"], sp["outs"]
             if len(go) != len(wo) or [o["k"] for o in go] != [o["k"] for o in wo]:
@@ -455,6 +527,8 @@ class C04(Check):
                     if len(g["l"]) != len(w["l"]): return n, "%s: flow-stats has %d flows, specification %d" % (where, len(g["l"]), len(w["l"]))
                     for a, b in zip(g["l"], w["l"]):
                         if a[1:] != b[1:] or not spec_identical(a[0], b[0]): return n, "%s: flow-stats entry differs" % where
+                elif g["k"] == "rel":
+                    if g != rel_view(w): return n, "%s: buffer release %s, specification %s" % (where, g, rel_view(w))
                 elif g != w:
                     return n, "%s: message %s, specification %s" % (where, self._brief(g), self._brief(w))
         return None
@@ -514,6 +588,8 @@ class C04(Check):
             {"op": "adv", "dt": 1125},
             {"op": "sweep"},
             {"op": "fstats", "m": M_ALL, "out_port": NONE},
+            {"op": "pkt", "frame": fr[3], "port": 3},                       # ARP: a miss unless M_INPORT1/.. match; buffered
+            fm(ADD, M_ARP, 100, CHECK_OVERLAP, acts=ACTS[2], cookie=7, buf=1),
         ]
 
     def corpus(self):
@@ -542,6 +618,17 @@ class C04(Check):
                                  fm(MODIFY, M_IP, 100, EMERG | SEND_FLOW_REM, hard=1), fm(MODIFY_STRICT, M_IP, 100, EMERG)]},
             {"max": 100, "ops": [fm(ADD, M_IP, 100, cookie=1), fm(ADD, M_IP_B, 100, cookie=2), fm(DELETE_STRICT, M_IP, 100)]},   # two encodings, one flow
             {"max": 100, "ops": [fm(ADD, M_EXACT, 5, SEND_FLOW_REM, cookie=1), fm(ADD, M_ALL, 0xffff, cookie=2), pk(0), fm(DELETE, M_NET8, out_port=2)]},
+            # buffers: two misses, release through ADD / refused ADD / DELETE / MODIFY, reuse of a freed slot, unknown and used ids, pool full
+            {"max": 100, "bufs": 2, "ops": [pk(3, 3), pk(4, 2), pk(1, 1), fm(ADD, M_ARP, 100, acts=ACTS[2], cookie=1, buf=1), fm(ADD, M_ARP, 100, CHECK_OVERLAP, cookie=2, buf=2),
+                                            fm(DELETE, M_ALL, 0, acts=ACTS[3], buf=2), pk(4, 2), fm(MODIFY, M_IP, 5, acts=ACTS[6], cookie=3, buf=1), fm(ADD, M_IP, 5, cookie=4, buf=0),
+                                            fm(DELETE_STRICT, M_IP, 5, buf=7), fm(ADD, M_IP, 100, EMERG, cookie=5, buf=1)]},
+            {"max": 100, "bufs": 0, "ops": [pk(3, 3), fm(ADD, M_ARP, 100, buf=1)]},
+            # unknown commands: refused, nothing else happens (not even the buffer)
+            {"max": 100, "ops": [pk(3, 3), fm(7, M_ALL, 0, buf=1), fm(0xffff, M_ARP, 100, SEND_FLOW_REM, cookie=1), fm(5, M_ALL, 0), fm(ADD, M_ARP, 100, buf=1)]},
+            # CHECK_OVERLAP on address prefixes: nested, partially overlapping, disjoint; other priority; exact flow inside a prefix
+            {"max": 100, "ops": [fm(ADD, M_NET8, 100, CHECK_OVERLAP, cookie=1), fm(ADD, M_DST16, 100, CHECK_OVERLAP, cookie=2), fm(ADD, M_NET8_O, 100, CHECK_OVERLAP, cookie=3),
+                                 fm(ADD, M_NET16_P1, 100, CHECK_OVERLAP, cookie=4), fm(ADD, M_DST16, 10, CHECK_OVERLAP, cookie=5), fm(ADD, M_EXACT, 100, CHECK_OVERLAP, cookie=6),
+                                 fm(MODIFY, M_TCP80, 100, CHECK_OVERLAP, cookie=7), fm(MODIFY_STRICT, M_DST16, 100, CHECK_OVERLAP, cookie=8)]},
         ]
         return cases
 
@@ -552,9 +639,12 @@ class C04(Check):
             cmd = rng.choice([ADD, ADD, ADD, MODIFY, MODIFY_STRICT, DELETE, DELETE_STRICT])
             flags = rng.choice([0, 0, SEND_FLOW_REM, SEND_FLOW_REM, SEND_FLOW_REM | CHECK_OVERLAP, CHECK_OVERLAP])
             if rng.random() < 0.04: flags |= EMERG
+            if rng.random() < 0.03: cmd = rng.choice([5, 7, 0xffff])
+            buf = rng.choice([1, 1, 2, 3, 0, 9]) if rng.random() < 0.2 else None
             return fm(cmd, rng.choice(MATCHES), rng.choice(PRIOS), flags,
                       out_port=(rng.choice([NONE, NONE, 2, 3, 4]) if cmd in (DELETE, DELETE_STRICT) else rng.choice([NONE, 2])),
-                      acts=rng.choice(ACTS), idle=rng.choice([0, 0, 1, 2, 3]), hard=rng.choice([0, 0, 1, 3, 5]), cookie=rng.randint(0, 2 ** 64 - 1))
+                      acts=(ACTS[rng.choice(BUF_ACTS)] if buf is not None else rng.choice(ACTS)), idle=rng.choice([0, 0, 1, 2, 3]),
+                      hard=rng.choice([0, 0, 1, 3, 5]), cookie=rng.randint(0, 2 ** 64 - 1), buf=buf)
         if r < 0.7: return {"op": "pkt", "frame": rng.choice(fr), "port": rng.choice([1, 1, 2, 3])}
         if r < 0.82: return {"op": "adv", "dt": rng.choice([125, 500, 875, 1000, 1125, 2000, 3125])}
         if r < 0.93: return {"op": "sweep"}
@@ -565,14 +655,18 @@ class C04(Check):
             A = self.small_alphabet()
             for ops in itertools.product(A, repeat=4):
                 yield {"max": 100, "ops": [copy.deepcopy(o) for o in ops]}
-        n = 1500 if tier == "quick" else 20000
+        n = 1500 if tier == "quick" else 15000
         for _ in range(n):
             L = rng.choice([5, 12, 30, 60, rng.randint(1, 60)])
-            case = {"max": rng.choice([100, 100, 100, 2, 3, 5]), "ops": [self.rand_op(rng, tier) for _ in range(L)]}
+            case = {"max": rng.choice([100, 100, 100, 2, 3, 5]), "bufs": rng.choice([100, 100, 0, 1, 2, 3]),
+                    "ops": [self.rand_op(rng, tier) for _ in range(L)]}
             yield case
 
 
 C04.theorems = ["Pox.C04." + t for t in (
-    "table_sorted", "table_sorted_init", "no_duplicates", "removed_once", "departures_leave", "expiry_window", "clock_inv", "flowmod_refines", "history_refines",
-    "selection_meaning", "overlap_meaning", "overlap_check_exact", "partial_overlap_witness", "strict_hostbits_defect", "undefined_bits_defect", "stats_unwired_defect")]
+    "table_sorted", "table_sorted_init", "table_sorted_prefix", "no_duplicates", "removed_once", "departures_leave", "expiry_window", "clock_inv",
+    "flowmod_refines_partial", "history_refines_partial", "regular_repaired", "history_refines_repaired", "removed_stream_refines",
+    "selection_meaning", "overlap_meaning", "overlap_check_exact", "partial_overlap_witness", "cidr_overlap_witness",
+    "strict_hostbits_defect", "undefined_bits_defect", "stats_unwired_defect", "history_refines_full_defect_head",
+    "history_refines_full_defect_repaired")]
 CHECK = C04
